@@ -269,8 +269,12 @@ class WebsocketSession(object):
             # Get the write lock, so we can be certain data sending
             # in another thread is sent.
             with self._lock:
-                self._sock.shutdown(socket.SHUT_RDWR)
-                self._sock.close()
+                try:
+                    self._sock.shutdown(socket.SHUT_RDWR)
+                finally:
+                    # shutdown fails (ENOTCONN) when the connection was
+                    # reset; the descriptor still has to be released.
+                    self._sock.close()
         except socket.error:
             # Socket is already closed, just a no-op
             pass
